@@ -58,34 +58,36 @@ Lemma byte_run_bits (used bits bit : nat) B x :
   zeros (bit - used) ++ bits_be bits x ++ bits_be (8 - bits - bit) B.
 Proof.
   intros Hu Hb Hx Hgap.
-  set (s := (8 - bits - bit)%nat) in *.
-  rewrite <- (bits_be_mod s B).
-  rewrite bits_be_app by (apply N.mod_lt, pow2_nz).
-  rewrite <- bits_be_zero.
-  assert (Hlt : x * 2 ^ N.of_nat s + B mod 2 ^ N.of_nat s < 2 ^ N.of_nat (bits + s)).
-  { rewrite pow2_split. pose proof (N.mod_lt B (2 ^ N.of_nat s) (pow2_nz _)) as Hr.
-    assert (Hxq : x < 2 ^ N.of_nat bits) by (rewrite <- Hx; apply N.mod_lt, pow2_nz).
-    remember (2 ^ N.of_nat s) as p0. remember (2 ^ N.of_nat bits) as q0. remember (B mod p0) as r0.
-    clear - Hr Hxq.
-    apply N.lt_le_trans with (x * p0 + p0); [lia|].
-    replace (x * p0 + p0) with ((x + 1) * p0) by lia. apply N.mul_le_mono_r. lia. }
-  rewrite bits_be_app by exact Hlt.
-  replace (bit - used + (bits + s))%nat with (8 - used)%nat by (unfold s; lia).
-  apply bits_be_eq_mod. rewrite N.mul_0_l, N.add_0_l.
-  rewrite (N.mod_small _ _ ) at 1.
-  2:{ eapply N.lt_le_trans; [exact Hlt|]. apply N.pow_le_mono_r; [discriminate|unfold s; lia]. }
-  (* B mod 2^(8-used) = x*2^s + B mod 2^s *)
-  replace (8 - used)%nat with (s + (bits + (bit - used)))%nat by (unfold s; lia).
-  rewrite pow2_split. set (p := 2 ^ N.of_nat s). rewrite pow2_split.
-  set (q := 2 ^ N.of_nat bits). set (w := 2 ^ N.of_nat (bit - used)).
+  remember (8 - bits - bit)%nat as s eqn:Es.
+  assert (E1 : (8 - used = (bit - used) + (bits + s))%nat) by (clear - Hu Hb Es; lia).
+  assert (E2 : (8 - bit = s + bits)%nat) by (clear - Hu Hb Es; lia).
+  set (p := 2 ^ N.of_nat s) in *. set (q := 2 ^ N.of_nat bits) in *.
+  set (w := 2 ^ N.of_nat (bit - used)) in *.
   assert (Hp : p <> 0) by apply pow2_nz. assert (Hq : q <> 0) by apply pow2_nz.
   assert (Hw : w <> 0) by apply pow2_nz.
+  assert (Hxq : x < q) by (rewrite <- Hx; apply N.mod_lt, Hq).
+  assert (Hr : B mod p < p) by (apply N.mod_lt, Hp).
+  assert (Hlt : x * p + B mod p < q * p).
+  { remember (B mod p) as r0. clear - Hr Hxq.
+    apply N.lt_le_trans with (x * p + p); [lia|].
+    replace (x * p + p) with ((x + 1) * p) by lia. apply N.mul_le_mono_r. lia. }
+  rewrite <- (bits_be_mod s B). fold p.
+  rewrite bits_be_app by exact Hr. fold p.
+  rewrite <- bits_be_zero.
+  rewrite bits_be_app by (rewrite pow2_split; exact Hlt).
+  rewrite <- E1. apply bits_be_eq_mod.
+  rewrite N.mul_0_l, N.add_0_l. rewrite E1, pow2_split, pow2_split. fold p q w.
+  assert (Hqp : q * p <= w * (q * p)).
+  { rewrite <- (N.mul_1_l (q * p)) at 1. apply N.mul_le_mono_r. lia. }
+  rewrite (N.mod_small (x * p + B mod p)) by lia.
+  (* B mod (w*(q*p)) = x*p + B mod p *)
+  replace (w * (q * p)) with (p * (q * w)) by lia.
   rewrite (N.mod_mul_r B p (q * w)) by (try assumption; apply N.neq_mul_0; split; assumption).
   rewrite (N.mod_mul_r (B / p) q w) by assumption.
-  fold p in Hx. fold q in Hx. rewrite Hx.
+  rewrite Hx.
   replace (B / p / q) with (B / 2 ^ N.of_nat (8 - bit)).
-  - fold w in Hgap. rewrite Hgap. lia.
-  - rewrite N.div_div by assumption. f_equal. unfold p, q. rewrite <- pow2_split. f_equal. unfold s. lia.
+  - rewrite Hgap. lia.
+  - rewrite N.div_div by assumption. f_equal. rewrite E2, pow2_split. reflexivity.
 Qed.
 
 (* the gap above a freshly placed field is zero *)
@@ -99,19 +101,19 @@ Proof.
   set (p := 2 ^ N.of_nat (8 - bits - bit)) in *. set (q := 2 ^ N.of_nat bits) in *.
   set (w := 2 ^ N.of_nat (bit - used)).
   assert (Hpqw : 2 ^ N.of_nat (8 - used) = p * q * w).
-  { unfold p, q, w. rewrite <- !pow2_split. f_equal. lia. }
+  { unfold p, q, w. rewrite <- !pow2_split. f_equal. clear - Hu Hb1 Hb8. lia. }
   assert (Hpq : 2 ^ N.of_nat (8 - bit) = p * q).
-  { unfold p, q. rewrite <- pow2_split. f_equal. lia. }
+  { unfold p, q. rewrite <- pow2_split. f_equal. clear - Hu Hb1 Hb8. lia. }
   assert (Hp : p <> 0) by apply pow2_nz. assert (Hq : q <> 0) by apply pow2_nz.
   assert (Hw : w <> 0) by apply pow2_nz.
   rewrite Hpqw in Hmod. rewrite Hpq.
   rewrite <- N.div_div by assumption. rewrite HB.
   assert (Hm : p * q * w <> 0) by (apply N.neq_mul_0; split; [apply N.neq_mul_0; split|]; assumption).
   pose proof (N.div_mod acc (p * q * w) Hm) as E. rewrite Hmod, N.add_0_r in E.
-  set (k := acc / (p * q * w)) in *.
-  replace (acc + x * p) with ((k * w * q + x) * p) by nia.
+  remember (acc / (p * q * w)) as k eqn:Ek.
+  replace (acc + x * p) with ((k * w * q + x) * p) by (rewrite E; clear; lia).
   rewrite N.div_mul by exact Hp.
-  replace (k * w * q + x) with (x + (k * w) * q) by lia.
+  replace (k * w * q + x) with (x + (k * w) * q) by (clear; lia).
   rewrite N.div_add by exact Hq. rewrite (N.div_small x q) by exact Hx.
   rewrite N.add_0_l. apply N.mod_mul, Hw.
 Qed.
@@ -167,8 +169,9 @@ Proof.
         cbn [skipn] in Hb. rewrite Hb. cbn [option_map]. f_equal.
         rewrite skipn_bits_cons by exact Hu8.
         rewrite (byte_run_bits used bits bit acc' x Hs1 Hs3).
-        -- rewrite <- !app_assoc. f_equal. f_equal. f_equal.
-           rewrite <- (bits_be_mod (8 - bits - bit) acc'). fold s. rewrite Hm0. apply bits_be_zero.
+        -- replace (8 - bit - bits)%nat with (8 - bits - bit)%nat by (clear; lia).
+           rewrite <- !app_assoc. f_equal. f_equal. f_equal.
+           rewrite <- (bits_be_mod (8 - bits - bit) acc'). fold s. rewrite Hm0. symmetry. apply bits_be_zero.
         -- fold s. exact Hval.
         -- apply (bits_gap_zero used bits bit acc x acc' Hs1 Hs2 Hs3 Hmod Hf). fold s. rewrite Eacc. reflexivity.
     + cbn [wf_fspecs] in Hs. apply andb_true_iff in Hs as [Hu Hs]. apply Nat.eqb_eq in Hu. subst used.
@@ -190,6 +193,8 @@ Proof.
       destruct (enc_fields fs vs 0) as [[r rz]|] eqn:Er; [|discriminate]. injection E as <- <-.
       destruct (IH vs 0 0%nat r rz Hs Hv (Nat.le_0_l 8) N_lt_0_256 eq_refl Er) as [_ Hb].
       split; [intros; lia|]. cbn [field_bits skipn] in *. rewrite Hb. cbn [option_map].
+      match goal with |- _ = Some (bytes_to_bits ?l) =>
+        change l with (be 2 (len ns) ++ flat_map (be e) ns ++ r) end.
       rewrite !bytes_to_bits_app, bytes_bits_be, bytes_bits_flat. reflexivity.
     + cbn [wf_fspecs] in Hs. apply andb_true_iff in Hs as [Hu Hs]. apply Nat.eqb_eq in Hu. subst used.
       destruct vs as [|v vs]; [contradiction|]. destruct Hv as [Hf Hv].
@@ -197,6 +202,8 @@ Proof.
       destruct (enc_fields fs vs 0) as [[r rz]|] eqn:Er; [|discriminate]. injection E as <- <-.
       destruct (IH vs 0 0%nat r rz Hs Hv (Nat.le_0_l 8) N_lt_0_256 eq_refl Er) as [_ Hb].
       split; [intros; lia|]. cbn [field_bits skipn] in *. rewrite Hb. cbn [option_map].
+      match goal with |- Some (bits_be 16 (lenN ?b) ++ _) = Some (bytes_to_bits ?l) =>
+        change l with (be 2 (len b) ++ b ++ r) end.
       rewrite !bytes_to_bits_app, bytes_bits_be. reflexivity.
     + cbn [wf_fspecs] in Hs. apply andb_true_iff in Hs as [Hu Hs]. apply Nat.eqb_eq in Hu. subst used.
       destruct vs as [|v vs]; [contradiction|]. destruct Hv as [Hf Hv].
@@ -204,12 +211,234 @@ Proof.
       destruct (enc_fields fs vs 0) as [[r rz]|] eqn:Er; [|discriminate]. injection E as <- <-.
       destruct (IH vs 0 0%nat r rz Hs Hv (Nat.le_0_l 8) N_lt_0_256 eq_refl Er) as [_ Hb].
       split; [intros; lia|]. cbn [field_bits skipn] in *. rewrite Hb. cbn [option_map].
+      match goal with |- Some (bits_be 16 ?n ++ bytes_to_bits ?b ++ _) = Some (bytes_to_bits ?l) =>
+        change l with (be 2 n ++ b ++ r) end.
       rewrite !bytes_to_bits_app, bytes_bits_be. reflexivity.
     + cbn [wf_fspecs] in Hs. apply andb_true_iff in Hs as [Hu Hs]. apply Nat.eqb_eq in Hu. subst used.
       destruct vs as [|v vs]; [contradiction|]. destruct Hv as [Hf Hv].
       destruct v; try contradiction. cbn [enc_fields] in E.
+      assert (Hs0 : wf_fspecs 0 fs = true) by (destruct fs; [reflexivity|discriminate Hs]).
       destruct (enc_fields fs vs 0) as [[r rz]|] eqn:Er; [|discriminate]. injection E as <- <-.
-      destruct (IH vs 0 0%nat r rz Hs Hv (Nat.le_0_l 8) N_lt_0_256 eq_refl Er) as [_ Hb].
+      destruct (IH vs 0 0%nat r rz Hs0 Hv (Nat.le_0_l 8) N_lt_0_256 eq_refl Er) as [_ Hb].
       split; [intros; lia|]. cbn [field_bits skipn] in *. rewrite Hb. cbn [option_map].
       rewrite bytes_to_bits_app. reflexivity.
+Qed.
+
+(* ---------- headers ---------- *)
+Lemma tv_header_bits tid : tid < 128 -> bits_be 8 (tid + 128) = true :: bits_be 7 tid.
+Proof.
+  intros H.
+  change (bits_be 8 (tid + 128)) with (N.testbit (tid + 128) (N.of_nat 7) :: bits_be 7 (tid + 128)).
+  f_equal.
+  - rewrite N.testbit_eqb. change (2 ^ N.of_nat 7) with 128.
+    replace ((tid + 128) / 128) with 1 by (apply N.div_unique with tid; lia). reflexivity.
+  - apply bits_be_eq_mod. change (2 ^ N.of_nat 7) with 128.
+    rewrite <- (N.mul_1_l 128) at 1. rewrite N.mod_add by discriminate. reflexivity.
+Qed.
+
+Lemma tlv_header_bits tid sz : tid < 1024 ->
+  bytes_to_bits (header_bytes KTLV tid sz) = zeros 6 ++ bits_be 10 tid ++ bits_be 16 sz.
+Proof.
+  intros H. cbn [header_bytes].
+  change [N.shiftr tid 8 mod 256; tid mod 256; N.shiftr sz 8 mod 256; sz mod 256]
+    with ([N.shiftr tid 8 mod 256; tid mod 256] ++ [N.shiftr sz 8 mod 256; sz mod 256]).
+  rewrite bytes_to_bits_app.
+  assert (B2 : forall x, [N.shiftr x 8 mod 256; x mod 256] = be 2 x).
+  { intros x. cbn [be]. change (8 * N.of_nat 1) with 8. change (8 * N.of_nat 0) with 0.
+    rewrite N.shiftr_0_r. reflexivity. }
+  rewrite !B2, !bytes_bits_be. change (8 * 2)%nat with 16%nat.
+  rewrite app_assoc. f_equal.
+  rewrite <- bits_be_zero. rewrite bits_be_app by (change (2 ^ N.of_nat 10) with 1024; exact H).
+  reflexivity.
+Qed.
+
+Lemma bytes_bits_div8 bs : Nat.div (length (bytes_to_bits bs)) 8 = length bs.
+Proof. rewrite bytes_to_bits_length, Nat.mul_comm. apply Nat.div_mul. discriminate. Qed.
+
+(* ---------- sub-parameters and containers ---------- *)
+Section BitsRT.
+  Variable t : table.
+  Hypothesis Hwf : wf_schema t = true.
+
+  Definition goodb_at (v : value) : Prop :=
+    forall bs sz, wfv t v -> enc t v = Some (bs, sz) ->
+                  value_bits t v = Some (bytes_to_bits bs) /\ byte_list bs.
+
+  Definition goodb (v : value) : Prop :=
+    match v with
+    | VStruct _ _ _ _ => goodb_at v
+    | VOpt (Some x) => goodb_at x
+    | VList l => Forall goodb_at l
+    | _ => True
+    end.
+
+  Lemma many_bits tid l : forall bs sz,
+    Forall goodb_at l -> wf_many (wfv t) tid l -> enc_many (enc t) tid l = Some (bs, sz) ->
+    bits_many (value_bits t) tid l = Some (bytes_to_bits bs) /\ byte_list bs.
+  Proof.
+    induction l as [|x l IH]; intros bs sz Hg Hw E; cbn [enc_many bits_many wf_many] in *.
+    - injection E as <- <-. split; [reflexivity|constructor].
+    - destruct Hw as (P & Hwx & Hwl). inversion Hg as [|? ? Hgx Hgl]; subst.
+      change (is_paramb tid x) with (is_param tid x). rewrite P in *.
+      destruct (enc t x) as [[b z]|] eqn:Ex; [|discriminate].
+      destruct (enc_many (enc t) tid l) as [[r rz]|] eqn:Er; [|discriminate].
+      injection E as <- <-.
+      destruct (Hgx b z Hwx Ex) as [Hb Hbl]. destruct (IH r rz Hgl Hwl eq_refl) as [Hr Hrl].
+      rewrite Hb, Hr. split; [rewrite bytes_to_bits_app; reflexivity|apply byte_list_app; assumption].
+  Qed.
+
+  Lemma subs_bits vs : forall subs chosen pending bs sz,
+    Forall goodb vs -> wf_subs t (wfv t) subs vs chosen pending ->
+    enc_subs (enc t) subs vs chosen = Some (bs, sz) ->
+    bits_subs (value_bits t) subs vs chosen = Some (bytes_to_bits bs) /\ byte_list bs.
+  Proof.
+    induction vs as [|v' vs IH]; intros subs chosen pending bs sz Hg Hw E.
+    - destruct subs; cbn [enc_subs bits_subs] in *; [|discriminate].
+      injection E as <- <-. split; [reflexivity|constructor].
+    - destruct subs as [|s subs]; cbn [enc_subs bits_subs wf_subs] in *; [discriminate|].
+      inversion Hg as [|? ? Hgv Hgvs]; subst.
+      destruct (s_arity s); destruct v' as [| | | |m tid0 fs0 ss0|o|l]; try discriminate.
+      + destruct Hw as (P & Hw).
+        change (is_paramb (s_tid s) (VStruct m tid0 fs0 ss0)) with (is_param (s_tid s) (VStruct m tid0 fs0 ss0)).
+        rewrite P in *. cbn [negb] in *. cbn [goodb] in Hgv.
+        destruct (s_group s =? 0).
+        * destruct Hw as (_ & Hwv & Hw).
+          destruct (enc t (VStruct m tid0 fs0 ss0)) as [[b z]|] eqn:Ex; [|discriminate].
+          destruct (enc_subs (enc t) subs vs chosen) as [[r rz]|] eqn:Er; [|discriminate].
+          injection E as <- <-.
+          destruct (Hgv b z Hwv Ex) as [Hb Hbl]. destruct (IH _ _ _ _ _ Hgvs Hw Er) as [Hr Hrl].
+          rewrite Hb, Hr. split; [rewrite bytes_to_bits_app; reflexivity|apply byte_list_app; assumption].
+        * destruct Hw as (_ & Hw).
+          destruct (chosen =? s_group s); cbn [orb] in *.
+          -- destruct Hw as (_ & Hw). eapply IH; eauto.
+          -- destruct (alt_nonzero (VStruct m tid0 fs0 ss0)); cbn [negb] in *.
+             ++ destruct Hw as (Hwv & Hw).
+                destruct (enc t (VStruct m tid0 fs0 ss0)) as [[b z]|] eqn:Ex; [|discriminate].
+                destruct (enc_subs (enc t) subs vs (s_group s)) as [[r rz]|] eqn:Er; [|discriminate].
+                injection E as <- <-.
+                destruct (Hgv b z Hwv Ex) as [Hb Hbl]. destruct (IH _ _ _ _ _ Hgvs Hw Er) as [Hr Hrl].
+                rewrite Hb, Hr. split; [rewrite bytes_to_bits_app; reflexivity|apply byte_list_app; assumption].
+             ++ destruct Hw as (_ & Hw). eapply IH; eauto.
+      + destruct o as [x|].
+        * destruct Hw as (_ & P & Hwv & Hw).
+          change (is_paramb (s_tid s) x) with (is_param (s_tid s) x). rewrite P in *. cbn [negb] in *.
+          cbn [goodb] in Hgv.
+          destruct (enc t x) as [[b z]|] eqn:Ex; [|discriminate].
+          destruct (enc_subs (enc t) subs vs chosen) as [[r rz]|] eqn:Er; [|discriminate].
+          injection E as <- <-.
+          destruct (Hgv b z Hwv Ex) as [Hb Hbl]. destruct (IH _ _ _ _ _ Hgvs Hw Er) as [Hr Hrl].
+          rewrite Hb, Hr. split; [rewrite bytes_to_bits_app; reflexivity|apply byte_list_app; assumption].
+        * destruct Hw as (_ & Hw). eapply IH; eauto.
+      + destruct Hw as (_ & _ & Hwm & Hw). cbn [goodb] in Hgv.
+        destruct (enc_many (enc t) (s_tid s) l) as [[b z]|] eqn:Em; [|discriminate].
+        destruct (enc_subs (enc t) subs vs chosen) as [[r rz]|] eqn:Er; [|discriminate].
+        injection E as <- <-.
+        destruct (many_bits _ _ _ _ Hgv Hwm Em) as [Hb Hbl]. destruct (IH _ _ _ _ _ Hgvs Hw Er) as [Hr Hrl].
+        rewrite Hb, Hr. split; [rewrite bytes_to_bits_app; reflexivity|apply byte_list_app; assumption].
+  Qed.
+
+  Lemma goodb_struct msg tid fs ss : Forall goodb ss -> goodb (VStruct msg tid fs ss).
+  Proof.
+    intros Hg. cbn [goodb]. intros bs sz Hw E.
+    pose proof Hw as Hw0. cbn [wfv] in Hw. pose proof E as E0. cbn [enc value_bits] in E |- *.
+    destruct (find_container t msg tid) as [c|] eqn:F; [|contradiction].
+    destruct Hw as (Hf & Hs & Hsz).
+    pose proof (find_container_spec _ _ _ _ F) as (_ & Hm & Ht).
+    pose proof (find_container_wf _ _ _ _ Hwf F) as Hc.
+    destruct (container_parts t c Hc) as (Hfs & _ & _ & _ & Hk & _).
+    destruct (enc_fields (c_fields c) fs 0) as [[fb fsz]|] eqn:Ef; [|discriminate].
+    destruct (enc_subs (enc t) (c_subs c) ss 0) as [[sb ssz]|] eqn:Es; [|discriminate].
+    injection E as <- <-.
+    destruct (fields_bits (c_fields c) fs 0 0%nat fb fsz Hfs Hf (Nat.le_0_l 8) N_lt_0_256 eq_refl Ef) as [_ Hfb].
+    cbn [skipn] in Hfb.
+    destruct (fields_roundtrip (c_fields c) fs 0 0%nat Hfs Hf (Nat.le_0_l 8) N_lt_0_256 eq_refl)
+      as (fb' & fsz' & Ef' & _ & Hfbl & _). rewrite Ef in Ef'. injection Ef' as <- <-.
+    destruct (subs_bits ss (c_subs c) 0 0 sb ssz Hg Hs Es) as [Hsb Hsbl].
+    rewrite Hfb, Hsb. rewrite <- bytes_to_bits_app.
+    set (sz := header_size (c_kind c) + fsz + ssz) in *.
+    unfold kind_ok in Hk.
+    destruct (c_kind c) eqn:K.
+    - (* message *) cbn [header_bytes app]. split; [reflexivity|apply byte_list_app; assumption].
+    - (* TLV *)
+      destruct Hk as [Hk1 Hk2]. rewrite Ht in *.
+      assert (Hm' : is_msg_kind KTLV = false) by reflexivity.
+      destruct msg; [cbn in Hm; discriminate|].
+      pose proof (declared_size_exact t tid fs ss _ _ Hwf Hw0 E0) as Hlen.
+      split.
+      + rewrite (bytes_to_bits_app (header_bytes KTLV tid sz)), (tlv_header_bits tid sz Hk2). rewrite <- !app_assoc.
+        rewrite bytes_bits_div8. clearbody sz.
+        assert (Esz : N.of_nat (4 + length (fb ++ sb)) = sz).
+        { pose proof Hlen as Hl2. rewrite len_app in Hl2. unfold len in Hl2. cbn [header_bytes length] in Hl2.
+          remember (length (fb ++ sb)) as n0. clear - Hl2. lia. }
+        rewrite Esz. reflexivity.
+      + apply byte_list_app; [|apply byte_list_app; assumption].
+        cbn [header_bytes]. repeat constructor; apply N.mod_lt; discriminate.
+    - (* TV *)
+      rewrite Ht in *. cbn [header_bytes app]. split.
+      + rewrite bytes_to_bits_cons, (tv_header_byte tid Hk), (tv_header_bits tid Hk). reflexivity.
+      + constructor; [rewrite (tv_header_byte tid Hk); lia|apply byte_list_app; assumption].
+  Qed.
+
+  Theorem all_goodb : forall v, goodb v.
+  Proof.
+    apply value_ind'; try (intros; exact I).
+    - apply goodb_struct.
+    - intros x Hx. cbn [goodb]. destruct x; try (intros ? ? Hw; destruct Hw). exact Hx.
+    - intros l Hl. cbn [goodb]. apply Forall_forall. intros x Hin.
+      rewrite Forall_forall in Hl. specialize (Hl x Hin).
+      destruct x; try (intros ? ? Hw; destruct Hw). exact Hl.
+  Qed.
+End BitsRT.
+
+(* ---------- C02 statements ---------- *)
+
+(* the bytes the encoder produces are exactly the bit-level layout of the value *)
+Theorem encode_matches_layout t v bs :
+  wf_schema t = true -> wfv t v -> encode t v = Some bs ->
+  value_bits t v = Some (bytes_to_bits bs) /\ byte_list bs.
+Proof.
+  intros Hs Hw E. unfold encode in E. destruct (enc t v) as [[b sz]|] eqn:Ee; [|discriminate].
+  injection E as <-. destruct v as [| | | |m tid fs ss| |]; try contradiction.
+  exact (all_goodb t Hs (VStruct m tid fs ss) b sz Hw Ee).
+Qed.
+
+Lemma bits_be8_inj a b : a < 256 -> b < 256 -> bits_be 8 a = bits_be 8 b -> a = b.
+Proof.
+  intros Ha Hb H. rewrite <- (bits_to_N_bits_be_small 8 a), <- (bits_to_N_bits_be_small 8 b), H; auto.
+Qed.
+
+Lemma app_same_length {A} (a : list A) : forall b c d,
+  length a = length b -> a ++ c = b ++ d -> a = b /\ c = d.
+Proof.
+  induction a as [|x a IH]; intros [|y b] c d Hl H; cbn in Hl; try discriminate.
+  - split; [reflexivity|exact H].
+  - cbn in H. injection H as -> H. destruct (IH b c d ltac:(lia) H) as [-> ->]. split; reflexivity.
+Qed.
+
+Lemma bytes_to_bits_inj a : forall b, byte_list a -> byte_list b ->
+  bytes_to_bits a = bytes_to_bits b -> a = b.
+Proof.
+  induction a as [|x a IH]; intros [|y b] Ha Hb H.
+  - reflexivity.
+  - apply (f_equal (@length bool)) in H. rewrite !bytes_to_bits_length in H. cbn in H. lia.
+  - apply (f_equal (@length bool)) in H. rewrite !bytes_to_bits_length in H. cbn in H. lia.
+  - rewrite !bytes_to_bits_cons in H. inversion Ha; inversion Hb; subst.
+    assert (E1 : bits_be 8 x = bits_be 8 y /\ bytes_to_bits a = bytes_to_bits b).
+    { apply app_same_length; [rewrite !bits_be_length; reflexivity|exact H]. }
+    destruct E1 as [E1 E2]. f_equal; [apply bits_be8_inj; assumption|apply IH; assumption].
+Qed.
+
+(* conversely: any byte string whose bits are the layout of a well-formed value decodes to it *)
+Theorem decode_conformant t msg tid fs ss bs' fuel :
+  wf_schema t = true -> wfv t (VStruct msg tid fs ss) ->
+  (depth (VStruct msg tid fs ss) <= fuel)%nat -> byte_list bs' ->
+  value_bits t (VStruct msg tid fs ss) = Some (bytes_to_bits bs') ->
+  decode t fuel msg tid bs' = Some (VStruct msg tid fs ss).
+Proof.
+  intros Hs Hw Hd Hb Hbits.
+  destruct (encode_total t _ Hs Hw) as (bs & E).
+  destruct (encode_matches_layout t _ bs Hs Hw E) as [Hl Hbl].
+  rewrite Hl in Hbits. injection Hbits as Hbits.
+  assert (bs = bs') by (apply bytes_to_bits_inj; assumption). subst bs'.
+  apply decode_encode; assumption.
 Qed.
